@@ -1,19 +1,22 @@
 """C03 -- a container used only through its API is never internally damaged."""
 from harness import caseutil
 from harness.families import ALL_FAMS
-from harness.treelib import TreeEnv, HDR, call_term, shape_term, walk_invariants
+from harness.treelib import TreeEnv, HDR, call_term, shape_term, walk_invariants, chain_obs, chobs_term
 from harness.props.c09 import call_raw
 from harness.props.c13 import Plain
 from harness.families import BOUNDS
 from harness.props.c01 import gen_history, height
 
 PROPS_FILE = "Props/C03.v"
-MODEL_FILES = ["Model/RTree.v", "Model/TreeSpec.v", "Model/TreeRun.v"]
+MODEL_FILES = ["Model/RTree.v", "Model/TreeSpec.v", "Model/TreeRun.v", "Model/Chain.v", "Model/ChainRun.v"]
+HDR_CH = HDR.replace("Model.TreeRun.", "Model.TreeRun Model.Chain Model.ChainRun.")
 RULE = ("insert/delete/clear/update histories on BTree and TreeSet at node sizes (2,2),(2,3),(3,2),(3,3),(4,4),(6,3),(1,2) "
         "set on the class or on a subclass before first use; after EVERY call: _check(), BTrees.check.check(), an "
-        "independent walker (chain = descent order, nothing empty, uniform kinds, key ranges, size bounds) and shape "
-        "equality with the model; distinct by (kind, sizes, history); non-trivial = reaches height >= 2")
-ASSUMPTIONS = ["the leaf chain of the model is the in-order leaf sequence by construction; that the implementation's next pointers realise it is what this run checks",
+        "independent walker (chain = descent order, nothing empty, uniform kinds, key ranges, size bounds), shape "
+        "equality with the model, and the pointer model (Model/Chain.v: next / firstbucket written at the code's sites) "
+        "against the buckets met along _firstbucket/_next and the _firstbucket of every interior node; "
+        "distinct by (kind, sizes, history); non-trivial = reaches height >= 2")
+ASSUMPTIONS = ["RTree.v does not store the leaf chain; Model/Chain.v does (a heap of next / firstbucket fields written by the code's own assignments), C03_chain_* prove that it realises the in-order leaf sequence, and this run compares that heap with the implementation's pointers after every call",
                "keys modelled as Z"]
 SIZES = [(2, 2), (2, 3), (3, 2), (3, 3), (4, 4), (6, 3), (1, 2)]
 
@@ -23,6 +26,7 @@ def run(ctx):
     rng = ctx.rng
     nhist = ctx.n(260, 8000)
     terms, meta = [], []
+    chterms = []
     heights = {}
     nsteps = 0
     nrejected = 0
@@ -40,6 +44,7 @@ def run(ctx):
         for impl in ("C", "Py"):
             env = TreeEnv(fn, kind, impl, mode)
             shapes = []
+            chobs = []
             bad = None
             skipped = False
             if use_subclass:
@@ -93,10 +98,13 @@ def run(ctx):
                                            {"family": fn, "kind": kind, "impl": impl, "mode": mode, "sizes": [ml, mi], "subclass": use_subclass, "calls": calls[:i + 1]})
                         break
                     shapes.append(env.shape(t))
+                    chobs.append(chain_obs(env, t))
             if bad is None and not skipped:
                 vs = "true" if (impl == "C" and fn[1] in "IULQF" and kind == "BTree" and fn != "fs") else "false"
                 terms.append("TC3 %d %d %s %s [%s] [%s]" % (ml, mi, vs, "true" if impl == "C" else "false",
                                                            "; ".join(call_term(c) for c in calls), "; ".join(shape_term(s) for s in shapes)))
+                chterms.append("CH %d %d %s %s [%s] [%s]" % (ml, mi, vs, "true" if impl == "C" else "false",
+                                                            "; ".join(call_term(c) for c in calls), "; ".join(chobs_term(o) for o in chobs)))
                 meta.append((fn, kind, impl, mode, ml, mi, use_subclass, calls))
                 h = max(height(s) for s in shapes)
                 heights[h] = heights.get(h, 0) + 1
@@ -109,6 +117,13 @@ def run(ctx):
         ctx.corr_mismatch("c03 case file", e)
     for i in bad[:5]:
         ctx.corr_mismatch("RTree model shape/invariant vs implementation (per step)", {"case": meta[i]})
+    total2, bad2, errs2 = caseutil.eval_cases("c03ch", HDR_CH, "chcase_ok", chterms, shard=40, ctype="wchcase")
+    ctx.traces += total2
+    for e in errs2:
+        ctx.corr_mismatch("c03 chain case file", e)
+    for i in bad2[:5]:
+        ctx.corr_mismatch("pointer model (next / firstbucket, Model/Chain.v) vs implementation (per step)", {"case": meta[i]})
+    ctx.cov["histories_compared_with_pointer_model"] = total2
     ctx.cov["max_height_per_history"] = {str(k): v for k, v in sorted(heights.items())}
     ctx.cov["steps_checked_with__check_check_walker"] = nsteps
     ctx.cov["rejected_writes_checked"] = nrejected
